@@ -1977,11 +1977,18 @@ def unit_linecount(inj, scratch):
     sig = re.sub(r'\s+', ' ', s.text[it['sig_start']:it['open']]).strip()
     if sig != 'pub fn get_line_count(entry: &DirEntry) -> Option<usize>':
         raise AnchorLost(f'get_line_count: signature changed shape: {sig!r}')
-    text = 'pub mod linecount {\n' + H('frag_linecount_prelude.rs') + '\n// ---- verbatim ----\n' + whole + '\n' + H('frag_linecount.kani.rs') + '\n}\n'
+    it2 = s.fn('is_shebang')
+    whole2 = s.text[it2['sig_start']:it2['end']]
+    sig2 = re.sub(r'\s+', ' ', s.text[it2['sig_start']:it2['open']]).strip()
+    if sig2 != 'pub fn is_shebang(path: &PathBuf) -> bool':
+        raise AnchorLost(f'is_shebang: signature changed shape: {sig2!r}')
+    text = 'pub mod linecount {\n' + H('frag_linecount_prelude.rs') + '\n// ---- verbatim ----\n' + whole + '\n' + whole2 + '\n' + H('frag_linecount.kani.rs') + '\n}\n'
     inj.new_file(FRAG_FILE, text)
     r, d = frag_record('linecount::get_line_count', 'src/util/mod.rs', 'fn get_line_count (whole function, verbatim, on a scripted file)', whole, whole,
                        ['DirEntry / File / BufReader / bytecount::count -> scripted stand-ins with the same method names'], 'the operating system: open, read')
-    return dict(functions=[r], dropped=[d], assumptions=['the scripted reader stands for std::io::BufReader<File>: fill_buf yields the unread rest of the current chunk, an empty slice only at the end of the file, or an error; consume(n) advances by n'])
+    r2, d2 = frag_record('linecount::is_shebang', 'src/util/mod.rs', 'fn is_shebang (whole function, verbatim, on a scripted file)', whole2, whole2,
+                         ['PathBuf / File / BufReader::read_exact -> scripted stand-ins with the same method names'], 'the operating system: open, read')
+    return dict(functions=[r, r2], dropped=[d, d2], assumptions=['the scripted reader stands for std::io::BufReader<File>: fill_buf yields the unread rest of the current chunk, an empty slice only at the end of the file, or an error; consume(n) advances by n'])
 
 
 def unit_zipdate(inj, scratch):
